@@ -388,7 +388,10 @@ let lp_main guard path tablepath needpath =
               if ipanic then oracle c.lid "recv-panic" "handleIncomingFrame panicked on this frame sequence";
               (* heap allocated by the call, in proportion to the frame: generous constant for decoding and logging *)
               List.iter (fun l -> match split_ws l with
-                | ["AL"; b] -> let bytes = int_of_string b and flen = List.length frame in
+                | ["AL"; b] ->
+                    (* in proportion to the input: this frame, or - when it completes a message - the reassembled packet that is parsed and delivered *)
+                    let dlen = List.fold_left (fun a l -> match split_ws l with "DL" :: _ :: _ :: raw :: _ -> max a (String.length raw / 2) | _ -> a) 0 o_lines in
+                    let bytes = int_of_string b and flen = max (List.length frame) dlen in
                     if bytes > 65536 + 64 * flen then
                       oracle c.lid "alloc-out-of-proportion" (Printf.sprintf "handleIncomingFrame allocated %d bytes for a frame of %d bytes" bytes flen)
                 | _ -> ()) o_lines;
